@@ -114,3 +114,19 @@ func (m *Machine) jsonAppendString() *ssa.Function {
 	}
 	return nil
 }
+
+func init() {
+	// secretbox.Open: contract stub — fails, or succeeds with a plaintext of len(box)-16 arbitrary bytes
+	reg("golang.org/x/crypto/nacl/secretbox.Open", func(m *Machine, fr *frame, a []Value) Value {
+		box, _ := a[1].([]Value)
+		ok := m.freshVar("secretbox.ok", 0)
+		if len(box) < 16 || !m.branch(ok, "secretbox.Open") {
+			return Tuple{[]Value(nil), T.False}
+		}
+		out := make([]Value, len(box)-16)
+		for i := range out {
+			out[i] = m.freshVar("secretbox.plain", 8)
+		}
+		return Tuple{out, T.True}
+	})
+}
